@@ -150,6 +150,35 @@ func has(m map[string]int, name string) bool {
 	return false
 }
 `}},
+		{name: "one-prefix-a-proper-prefix-of-another", args: []string{"."}, flags: []string{"-pluginprefix=any=match,all=matchAll,equal=eq,compare=eqCmp"}, files: pkgFiles{"a.go": `package m
+
+type T struct {
+	A []int
+	M map[string]int
+}
+
+func short(s string) bool { return len(s) < 3 }
+
+func use(ss []string, a, b *T) (bool, bool, bool, int) {
+	return match(short, ss), matchAll(short, ss), eq(a, b), eqCmp(a, b)
+}
+`}},
+		{name: "test-file-calls-next-to-a-second-pass", args: []string{"."}, files: pkgFiles{"a.go": `package m
+
+func keys(m map[string]int) []string {
+	return deriveSort(deriveKeys(m))
+}
+`, "a_test.go": `package m
+
+type T struct {
+	A []int
+	M map[string]int
+}
+
+func same(a, b *T) (bool, uint64) {
+	return deriveEqual(a, b), deriveHash(a)
+}
+`}},
 		{name: "several-packages", args: []string{"./..."}, files: pkgFiles{
 			// a directory with nothing but an external test package sits between the others
 			"bx/x_test.go": "package bx_test\n",
@@ -262,6 +291,11 @@ func checkC08(tier string) {
 		var env []string
 		if sc.reload {
 			env = []string{"MCRT_RELOAD=1"}
+		}
+		for _, f := range sc.flags {
+			if strings.HasPrefix(f, "-pluginprefix=") {
+				env = append(env, "MCRT_PLUGINPREFIX="+strings.TrimPrefix(f, "-pluginprefix="))
+			}
 		}
 		r := run(root, 60*time.Minute, env, drv, args...)
 		var er exploreReport
